@@ -18,11 +18,11 @@ import (
 func init() {
 	Register(&Rule{
 		ID: "C45", Section: "5 C45",
-		Technique: "table agreement (extension ids written by marshal vs. switch labels of unmarshal; message type byte vs. readHandshake's dispatch), length-prefix agreement on go/ssa (copied field vs. stored len(), header length vs. allocation), difference-bound lower bounds on len() from dominating comparisons for constant-index reads in unmarshal",
+		Technique: "table agreement (extension ids written by marshal vs. switch labels of unmarshal; message type byte vs. readHandshake's dispatch), length-prefix agreement on go/ssa (copied field vs. stored len(), header length vs. allocation), difference-bound lower bounds on len() from dominating comparisons for constant-index reads in unmarshal, window agreement of adjacent byte stores / byte joins of big-endian fields",
 		Meta: core.Meta{
 			Level:       "other",
-			Explanation: "Decides: (a) for clientHelloMsg and serverHelloMsg every extension id that marshal writes is a case label of the extension switch of the same type's unmarshal (resolved through the constant objects / values); (b) the type byte each marshal stores at offset 0 is dispatched by Conn.readHandshake to the same message type; (c) in every marshal (12 handshake messages + sessionState) each variable-length receiver field copied into the output has a byte derived from len() of that same field stored into the output, and the three header length bytes are derived from the same value as the allocation size minus 4; (d) in every unmarshal each read data[k] / re-slice data[k:] / data[:k] with constant k on a byte slice is dominated by comparisons that bound len() of that slice (through re-slicing, phis and integer lower bounds) to at least k+1 resp. k; variable-bound slicings are proven when a dominating comparison bounds the length by the same expression, the others are only counted (note). Not covered: value equality of marshal/unmarshal round trips beyond the extension-table clause, variable-index reads inside element loops (no general bounds prover: the compiler's own prover leaves 221 checks open in this file), integer truncation of over-long fields in length prefixes.",
-			RuleText:    "obligations = each extension id written by a hello marshal; each marshal's type byte; each copied variable-length field of each marshal; each marshal's header length; each constant-index read or constant-bound re-slice in each unmarshal",
+			Explanation: "Decides: (a) for clientHelloMsg and serverHelloMsg every extension id that marshal writes is a case label of the extension switch of the same type's unmarshal (resolved through the constant objects / values); (b) the type byte each marshal stores at offset 0 is dispatched by Conn.readHandshake to the same message type; (c) in every marshal (12 handshake messages + sessionState) each variable-length receiver field copied into the output has a byte derived from len() of that same field stored into the output, and the three header length bytes are derived from the same value as the allocation size minus 4; (d) in every unmarshal each read data[k] / re-slice data[k:] / data[:k] with constant k on a byte slice is dominated by comparisons that bound len() of that slice (through re-slicing, phis and integer lower bounds) to at least k+1 resp. k; variable-bound slicings are proven when a dominating comparison bounds the length by the same expression, the others are only counted (note); (e) big-endian fields: in every marshal each stored byte of the form byte((q*m)>>s), s>0 (a non-lowest byte of a multi-byte field: header lengths, vector lengths, versions, suite ids, element lengths) is followed, at the next index of the same buffer value, by the next lower 8-bit window byte((q*m)>>(s-8)) of the same quantity q (scalings by shifts/constant factors normalised, so len>>7 / len<<1 is the 16-bit window pair of 2*len), and in every unmarshal each integer assembled by |/+ of shifted message bytes takes consecutive indices of one slice with shifts 8(n-1)…8,0 in index order. Not covered: value equality of marshal/unmarshal round trips beyond the extension-table clause, variable-index reads inside element loops (no general bounds prover: the compiler's own prover leaves 221 checks open in this file), integer truncation of over-long fields in length prefixes.",
+			RuleText:    "obligations = each extension id written by a hello marshal; each marshal's type byte; each copied variable-length field of each marshal; each marshal's header length; each constant-index read or constant-bound re-slice in each unmarshal; each right-shifted byte store of each marshal; each byte join of each unmarshal",
 		},
 		Run: runC45,
 		Mutants: []Mutant{
@@ -35,6 +35,11 @@ func init() {
 			{Name: "extension-header-check-dropped", File: "bfe_tls/handshake_messages.go", Old: "		extension := uint16(data[0])<<8 | uint16(data[1])\n		length := int(data[2])<<8 | int(data[3])\n		data = data[4:]\n		if len(data) < length {\n			return false\n		}\n\n		m.extensionIds", New: "		extension := uint16(data[0])<<8 | uint16(data[1])\n		length := int(data[2])<<8 | int(data[3])\n		data = data[4:]\n\n		m.extensionIds", Expect: "index-bound|clientHelloMsg.unmarshal"},
 			{Name: "cert-status-check-moved-after-use", File: "bfe_tls/handshake_messages.go", Old: "		if len(data) < 8 {\n			return false\n		}\n		respLen := uint32(data[5])<<16 | uint32(data[6])<<8 | uint32(data[7])\n", New: "		respLen := uint32(data[5])<<16 | uint32(data[6])<<8 | uint32(data[7])\n		if len(data) < 8 {\n			return false\n		}\n", Expect: "index-bound|certificateStatusMsg.unmarshal"},
 			{Name: "session-state-guard-off-by-one", File: "bfe_tls/ticket.go", Old: "		if len(data) < 4 {\n			return false\n		}\n		certLen := int(data[0])<<24", New: "		if len(data) < 3 {\n			return false\n		}\n		certLen := int(data[0])<<24", Expect: "index-bound|sessionState.unmarshal"},
+			{Name: "ticket-length-high-byte-wrong-window", File: "bfe_tls/handshake_messages.go", Old: "	x[8] = uint8(ticketLen >> 8)\n", New: "	x[8] = uint8(ticketLen >> 16)\n", Expect: "byte-window|newSessionTicketMsg.marshal"},
+			{Name: "certificate-octets-middle-byte-repeated", File: "bfe_tls/handshake_messages.go", Old: "	x[5] = uint8(certificateOctets >> 8)\n", New: "	x[5] = uint8(certificateOctets >> 16)\n", Expect: "byte-window|certificateMsg.marshal"},
+			{Name: "ticket-length-read-with-short-shift", File: "bfe_tls/handshake_messages.go", Old: "	ticketLen := int(data[8])<<8 + int(data[9])\n", New: "	ticketLen := int(data[8])<<7 + int(data[9])\n", Expect: "byte-join|newSessionTicketMsg.unmarshal"},
+			{Name: "ca-list-length-bytes-swapped", File: "bfe_tls/handshake_messages.go", Old: "	casLength := uint16(data[0])<<8 | uint16(data[1])\n", New: "	casLength := uint16(data[1])<<8 | uint16(data[0])\n", Expect: "byte-join|certificateRequestMsg.unmarshal"},
+			{Name: "silent-suite-vector-length-precomputed", Silent: true, File: "bfe_tls/handshake_messages.go", Old: "	y[0] = uint8(len(m.cipherSuites) >> 7)\n	y[1] = uint8(len(m.cipherSuites) << 1)\n", New: "	suiteBytes := 2 * len(m.cipherSuites)\n	y[0] = uint8(suiteBytes >> 8)\n	y[1] = uint8(suiteBytes)\n"},
 			{Name: "silent-guard-rewritten", Silent: true, File: "bfe_tls/handshake_messages.go", Old: "func (m *clientKeyExchangeMsg) unmarshal(data []byte) bool {\n	m.raw = data\n	if len(data) < 4 {\n		return false\n	}", New: "func (m *clientKeyExchangeMsg) unmarshal(data []byte) bool {\n	m.raw = data\n	if n := len(data); !(n >= 4) {\n		return false\n	}"},
 		},
 	})
@@ -47,23 +52,28 @@ func runC45(c *core.Ctx) {
 		c.Missing(tlsPkg)
 		return
 	}
-	proven := 0
+	proven, windows := 0, 0
 	c45ExtTable(c)
 	c45TypeByte(c)
 	for _, m := range append(append([]string{}, c45Messages...), "sessionState") {
 		if fn := tlsFunc(c, m+".marshal"); fn != nil {
 			c45LenPrefix(c, m, fn)
+			windows += c45Windows(c, m+".marshal", fn)
 			if m != "sessionState" {
 				c45Header(c, m, fn)
 			}
 		}
 		if fn := tlsFunc(c, m+".unmarshal"); fn != nil {
 			proven += c45Bounds(c, m, fn)
+			c45Joins(c, m+".unmarshal", fn)
 		}
 	}
 	c.Min("len-prefix", 15)
 	c.Min("hdr-length", 11)
 	c.Min("index-bound", 11)
+	c.Min("byte-window", 40)
+	c.Min("byte-join", 25)
+	c.Note("big-endian fields: %d high-byte stores checked against their successor byte in marshal functions", windows)
 	c.Check("index-bound", "proven-sites-total", token.NoPos, proven >= 120, fmt.Sprintf("only %d reads / re-slices were proven over all unmarshal functions; at least 120 were on the reference tree: the rule no longer sees the parsers' accesses", proven))
 }
 
@@ -946,4 +956,281 @@ func c45Bounds(c *core.Ctx, m string, fn *ssa.Function) int {
 	c.Check("index-bound", m+".unmarshal", fn.Pos(), len(open) == 0,
 		fmt.Sprintf("%s.unmarshal: %d of %d constant-index reads / re-slices of the message bytes are not covered by a dominating length comparison (a short or crafted message makes the parser panic or read outside the message): %s", m, len(open), sites, strings.Join(open, " | ")))
 	return nProven
+}
+
+// ---- (e) big-endian byte windows --------------------------------------------
+
+// c45Window reads a stored byte value as ((base * mul) >> shr) truncated to 8
+// bits: conversions are peeled, right shifts by constants are collected from
+// the outside, left shifts / multiplications by constants below them. ok is
+// false for constants and for forms where a left shift is applied after a
+// right shift (not a window of base).
+func c45Window(v ssa.Value) (base ssa.Value, mul, shr int64, ok bool) {
+	mul = 1
+	peel := func() {
+		for {
+			switch x := v.(type) {
+			case *ssa.Convert:
+				v = x.X
+				continue
+			case *ssa.ChangeType:
+				v = x.X
+				continue
+			}
+			return
+		}
+	}
+	for {
+		peel()
+		if b, isB := v.(*ssa.BinOp); isB && b.Op == token.SHR {
+			if k, isK := tlsConstInt(b.Y); isK && k >= 0 && k < 64 {
+				shr += k
+				v = b.X
+				continue
+			}
+		}
+		if b, isB := v.(*ssa.BinOp); isB && b.Op == token.AND {
+			// a mask that keeps at least the low byte does not change the stored byte when no shift follows
+			if k, isK := tlsConstInt(b.Y); isK && k&0xff == 0xff && shr == 0 {
+				v = b.X
+				continue
+			}
+		}
+		break
+	}
+	for {
+		peel()
+		b, isB := v.(*ssa.BinOp)
+		if !isB {
+			break
+		}
+		if k, isK := tlsConstInt(b.Y); isK && b.Op == token.SHL && k >= 0 && k < 32 {
+			mul <<= uint(k)
+			v = b.X
+			continue
+		}
+		if k, isK := tlsConstInt(b.Y); isK && b.Op == token.MUL && k > 0 && k < 1<<16 {
+			mul *= k
+			v = b.X
+			continue
+		}
+		if k, isK := tlsConstInt(b.X); isK && b.Op == token.MUL && k > 0 && k < 1<<16 {
+			mul *= k
+			v = b.Y
+			continue
+		}
+		break
+	}
+	if _, isK := v.(*ssa.Const); isK || mul <= 0 || mul > 1<<40 {
+		return nil, 0, 0, false
+	}
+	return v, mul, shr, true
+}
+
+type c45ByteStore struct {
+	st    *ssa.Store
+	buf   ssa.Value
+	terms string
+	k     int64
+}
+
+func c45ByteStores(fn *ssa.Function) []c45ByteStore {
+	var out []c45ByteStore
+	for _, in := range tlsInstrs(fn) {
+		st, ok := in.(*ssa.Store)
+		if !ok {
+			continue
+		}
+		ia, ok := st.Addr.(*ssa.IndexAddr)
+		if !ok {
+			continue
+		}
+		if bt, ok := st.Val.Type().Underlying().(*types.Basic); !ok || bt.Kind() != types.Uint8 {
+			continue
+		}
+		t, k := c45Terms(ia.Index)
+		sort.Strings(t)
+		// z[0] = hi; z = z[1:]; z[0] = lo: constant re-slices are folded into the index
+		buf := ia.X
+		for i := 0; i < 6; i++ {
+			sl, ok := buf.(*ssa.Slice)
+			if !ok || sl.High != nil || sl.Max != nil {
+				break
+			}
+			if _, isPtr := sl.X.Type().Underlying().(*types.Pointer); isPtr {
+				break
+			}
+			lo := int64(0)
+			if sl.Low != nil {
+				var isK bool
+				if lo, isK = tlsConstInt(sl.Low); !isK {
+					break
+				}
+			}
+			buf, k = sl.X, k+lo
+		}
+		out = append(out, c45ByteStore{st, buf, strings.Join(t, "+"), k})
+	}
+	return out
+}
+
+// c45Windows: a byte that is a right-shifted window of a quantity is the
+// non-lowest byte of a big-endian field; the byte stored right after it (same
+// buffer value, index + 1) must be the next lower 8-bit window of the same
+// quantity: ((q*m) >> s) is followed by ((q*m) >> (s-8)). Returns the number of
+// obligations.
+func c45Windows(c *core.Ctx, key string, fn *ssa.Function) int {
+	stores := c45ByteStores(fn)
+	n := 0
+	for _, hi := range stores {
+		base, mul, shr, ok := c45Window(hi.st.Val)
+		if !ok || shr == 0 {
+			continue
+		}
+		n++
+		what := core.Render(base)
+		if len(what) > 60 {
+			what = what[:60] + "…"
+		}
+		found, good, got := false, false, ""
+		for _, lo := range stores {
+			if lo.buf != hi.buf || lo.terms != hi.terms || lo.k != hi.k+1 {
+				continue
+			}
+			found = true
+			b2, m2, s2, ok2 := c45Window(lo.st.Val)
+			got = core.Render(lo.st.Val)
+			if !ok2 || (b2 != base && core.Render(b2) != core.Render(base)) {
+				continue
+			}
+			// hi = (q*mul)>>shr must equal ((q*m2)>>s2)>>8
+			if shr < 63 && s2+8 < 63 && m2<<uint(shr) == mul<<uint(s2+8) {
+				good = true
+			}
+		}
+		detail := ""
+		switch {
+		case !found:
+			detail = "no byte is stored at the next index of the same buffer"
+		case !good:
+			detail = "the next byte stores " + got + ", which is not the next lower 8-bit window of that quantity"
+		}
+		c.Check("byte-window", fmt.Sprintf("%s:high-byte#%d", key, n), hi.st.Pos(), good,
+			fmt.Sprintf("%s writes byte(%s * %d >> %d) as a non-lowest byte of a big-endian field, but %s: for large values the field on the wire is not the quantity that was meant (lengths lose their high bits, the message no longer parses back)", key, what, mul, shr, detail))
+	}
+	return n
+}
+
+// c45Joins is the reading counterpart of c45Windows: an integer assembled by
+// or-ing / adding shifted bytes of one slice (int(d[k])<<8 | int(d[k+1]), …)
+// must take consecutive indices with shifts 8*(n-1), …, 8, 0 in index order.
+func c45Joins(c *core.Ctx, key string, fn *ssa.Function) {
+	// a byte term is d[i] or d[i]<<k (conversions peeled)
+	byteTerm := func(v ssa.Value) bool {
+		v = core.StripConv(v)
+		if b, ok := v.(*ssa.BinOp); ok && b.Op == token.SHL {
+			if _, isK := tlsConstInt(b.Y); !isK {
+				return false
+			}
+			v = core.StripConv(b.X)
+		}
+		a, isLoad := tlsLoad(v)
+		if !isLoad {
+			return false
+		}
+		ia, ok := a.(*ssa.IndexAddr)
+		return ok && c45IsByteSlice(ia.X.Type())
+	}
+	// a join is an | of anything, or a + whose operands are byte terms / joins
+	var isJoin func(v ssa.Value) *ssa.BinOp
+	isJoin = func(v ssa.Value) *ssa.BinOp {
+		b, ok := v.(*ssa.BinOp)
+		if !ok {
+			return nil
+		}
+		if b.Op == token.OR {
+			return b
+		}
+		if b.Op == token.ADD && (byteTerm(b.X) || isJoin(b.X) != nil) && (byteTerm(b.Y) || isJoin(b.Y) != nil) {
+			return b
+		}
+		return nil
+	}
+	type leaf struct {
+		x     ssa.Value
+		terms string
+		k, sh int64
+	}
+	n := 0
+	for _, in := range tlsInstrs(fn) {
+		root := isJoin(valueOf(in))
+		if root == nil {
+			continue
+		}
+		inner := false
+		if root.Referrers() != nil {
+			for _, r := range *root.Referrers() {
+				if isJoin(valueOf(r)) != nil {
+					inner = true
+				}
+			}
+		}
+		if inner {
+			continue
+		}
+		var leaves []leaf
+		okTree := true
+		var flat func(v ssa.Value)
+		flat = func(v ssa.Value) {
+			if b := isJoin(v); b != nil {
+				flat(b.X)
+				flat(b.Y)
+				return
+			}
+			var sh int64
+			v = core.StripConv(v)
+			if b, ok := v.(*ssa.BinOp); ok && b.Op == token.SHL {
+				k, isK := tlsConstInt(b.Y)
+				if !isK {
+					okTree = false
+					return
+				}
+				sh, v = k, core.StripConv(b.X)
+			}
+			a, isLoad := tlsLoad(v)
+			if !isLoad {
+				okTree = false
+				return
+			}
+			ia, ok := a.(*ssa.IndexAddr)
+			if !ok || !c45IsByteSlice(ia.X.Type()) {
+				okTree = false
+				return
+			}
+			t, k := c45Terms(ia.Index)
+			sort.Strings(t)
+			leaves = append(leaves, leaf{ia.X, strings.Join(t, "+"), k, sh})
+		}
+		flat(root)
+		if !okTree || len(leaves) < 2 {
+			continue
+		}
+		n++
+		sort.Slice(leaves, func(i, j int) bool { return leaves[i].k < leaves[j].k })
+		good := true
+		var desc []string
+		for j, l := range leaves {
+			desc = append(desc, fmt.Sprintf("[%d]<<%d", l.k, l.sh))
+			if l.x != leaves[0].x || l.terms != leaves[0].terms || l.k != leaves[0].k+int64(j) || l.sh != 8*int64(len(leaves)-1-j) {
+				good = false
+			}
+		}
+		c.Check("byte-join", fmt.Sprintf("%s:join#%d", key, n), root.Pos(), good,
+			fmt.Sprintf("%s assembles an integer from message bytes as %s of %s; a big-endian field takes consecutive bytes of one slice with shifts %d…8,0 in index order: the value read is not the value written (lengths above 255 are mis-read)", key, strings.Join(desc, " "), core.Render(leaves[0].x), 8*(len(leaves)-1)))
+	}
+}
+
+func valueOf(in ssa.Instruction) ssa.Value {
+	v, _ := in.(ssa.Value)
+	return v
 }
